@@ -24,8 +24,8 @@ PROP = {'technique': 'property-based testing (rapid) with an independent punch c
                  'binding responses that are not canonical success responses with a usable mapped address (error responses, no address, port 0, trailing bytes, malformed attributes) may go either way'],
  'tests': [{'name': 'TestVerifC20_Regress_StunReservedBits', 'unit': REALM, 'kind': 'plain', 'known_sig': 'stun-reserved-bits'},
            {'name': 'TestVerifC20_CodecExhaustive', 'unit': REALM, 'kind': 'plain'},
-           {'name': 'TestVerifC20_Codec', 'unit': REALM, 'quick': 20000, 'thorough': 120000, 'shards_thorough': 8},
-           {'name': 'TestVerifC20_Demux', 'unit': REALM, 'quick': 3000, 'thorough': 20000, 'shards_thorough': 8},
-           {'name': 'TestVerifC20_Concurrent', 'unit': REALM, 'race': True, 'quick': 1200, 'thorough': 6000, 'shards_thorough': 8},
-           {'name': 'TestVerifC20_ServerPuncher', 'unit': REALM, 'race': True, 'quick': 600, 'thorough': 4000, 'shards_thorough': 8},
+           {'name': 'TestVerifC20_Codec', 'unit': REALM, 'quick': 60000, 'thorough': 200000, 'shards_thorough': 8},
+           {'name': 'TestVerifC20_Demux', 'unit': REALM, 'quick': 12000, 'thorough': 40000, 'shards_thorough': 8},
+           {'name': 'TestVerifC20_Concurrent', 'unit': REALM, 'race': True, 'timeout_quick': 1200, 'quick': 4000, 'thorough': 12000, 'shards_thorough': 8},
+           {'name': 'TestVerifC20_ServerPuncher', 'unit': REALM, 'race': True, 'timeout_quick': 1200, 'quick': 2000, 'thorough': 8000, 'shards_thorough': 8},
            {'name': 'FuzzVerifC20_Classify', 'unit': REALM, 'kind': 'fuzz', 'fuzz_secs': 240}]}
